@@ -115,6 +115,14 @@
 //     decay function to one peer's value needs k whole intervals of wall time since the tag was registered
 //     (never more often than wall time allows; late or skipped is allowed), and the value reported is the
 //     one the function returned (tag-total/tags).
+//     The manager reads its clock somewhere between an operation's invocation and its return; if another
+//     task jumps the clock inside that window (UpsertTag creates the entry and reads the clock BEFORE it
+//     calls the — yielding — callback) the instants the operation records lie anywhere between the two wall
+//     times: the peer is then treated as ambiguous (no grace / kept-eligible / early-tag-in-grace / first-seen
+//     assertion until it is re-synchronised at quiescence; probe clock-jump-during-operation). A model that
+//     stamped with the return time raised a false C14/entry-forgotten once in 477 000 runs of the thorough
+//     tier (seed 2000004 run 132206: UpsertTag(p1) at wall +40s, +30s jump inside its callback, trim at
+//     +1m12s legitimately prunes the 32 s old early-tag entry, grace 20 s).
 //   - Under concurrency (and for background trims, whose start is not observable) a peer takes part
 //     in a comparison only if no operation that can change the compared attribute overlaps the
 //     trim window (stamps), and whole-population bounds are only asserted when no operation that
@@ -162,6 +170,9 @@ const (
 type win struct {
 	inv, ret uint64
 	kind     int
+	mp       *mpeer
+	off0     time.Duration // sum of the clock jumps when the operation was invoked
+	jumped   bool          // the clock jumped while the operation was in flight
 }
 
 // mpeer is the reference model of one peer.
@@ -324,6 +335,7 @@ type sconn struct {
 	closedAt   uint64 // stamp of the first CloseWithError (0 = never)
 	firstRemIn uint64 // stamp of the first Disconnected invocation (0 = never)
 	nClose     int
+	timeUnc    bool // the clock jumped during its Connected: the recorded connection time is not known exactly
 }
 
 func (c *sconn) RemotePeer() peer.ID           { c.h.touch(); return c.mp.id }
@@ -546,7 +558,7 @@ func (h *H) begin(mp *mpeer, kind int) *win {
 		}
 		mp.unc = true
 	}
-	w := &win{inv: simrt.Stamp(), ret: inf, kind: kind}
+	w := &win{inv: simrt.Stamp(), ret: inf, kind: kind, mp: mp, off0: h.offset}
 	mp.wins = append(mp.wins, w)
 	if kind&wAdd != 0 {
 		h.addIn++
@@ -570,6 +582,18 @@ func (h *H) end(w *win, apply func()) {
 	}
 	if apply != nil {
 		apply()
+	}
+	if h.offset != w.off0 {
+		// Another task jumped the clock while this operation was in flight: the manager read the clock
+		// somewhere between invocation and return, so every instant this operation records (first seen of
+		// a new entry, connection time) lies anywhere between the two wall times. The model does not guess.
+		w.jumped = true
+		if w.kind&(wVal|wAdd|wLife) != 0 && w.mp != nil {
+			if !w.mp.unc {
+				h.o.Probe("clock-jump-during-operation")
+			}
+			w.mp.unc = true
+		}
 	}
 	h.cntChanged()
 	w.ret = simrt.Stamp()
@@ -631,6 +655,9 @@ func (h *H) connected(c *sconn) {
 	w := h.begin(c.mp, wAdd|wLife)
 	h.nf.Connected(nil, c)
 	h.end(w, func() { h.mConnected(c) })
+	if w.jumped {
+		c.timeUnc = true
+	}
 }
 
 func (h *H) disconnected(c *sconn, why string) {
@@ -1256,8 +1283,10 @@ func (h *H) compare(when string) {
 		obs := h.cm.GetTagInfo(mp.id)
 		// connections first: they never depend on the order of overlapping operations
 		want := map[string]time.Duration{}
+		timeUnc := map[string]bool{}
 		for c, at := range mp.conns {
 			want[c.addr.String()] = at
+			timeUnc[c.addr.String()] = c.timeUnc
 		}
 		ngot := 0
 		if obs != nil {
@@ -1298,7 +1327,7 @@ func (h *H) compare(when string) {
 		}
 		if obs != nil && h.stall == 0 {
 			for a, at := range obs.Conns {
-				if at.Sub(h.t0) != want[a] {
+				if at.Sub(h.t0) != want[a] && !timeUnc[a] {
 					h.o.Violate("C14/peer-conns/time", "%s: GetTagInfo(%s).Conns[%s] = +%v, Connected was delivered at +%v", when, mp.name, a, at.Sub(h.t0), want[a])
 				}
 			}
